@@ -232,6 +232,20 @@ impl KnownFindings {
     }
 }
 
+static NOTED_KNOWN: Mutex<BTreeMap<String, u64>> = Mutex::new(BTreeMap::new());
+
+/// For checks that continue a case past a known finding: true (and counted) iff the finding
+/// `id` is listed as open for `property` in known_findings.json.
+pub fn tolerate_known(property: &str, id: &str) -> bool {
+    static LOADED: std::sync::OnceLock<KnownFindings> = std::sync::OnceLock::new();
+    let k = LOADED.get_or_init(KnownFindings::load);
+    let open = k.entries.iter().any(|e| e.id == id && e.property == property && e.status == "open");
+    if open {
+        *NOTED_KNOWN.lock().unwrap().entry(id.to_string()).or_default() += 1;
+    }
+    open
+}
+
 // ---------------------------------------------------------------------------
 // Sub-check report
 // ---------------------------------------------------------------------------
@@ -790,8 +804,14 @@ impl Ctx {
     }
 
     /// Write evidence, print result lines, return process exit code
-    pub fn finish(self, level: &str, rule: &str) -> i32 {
+    pub fn finish(mut self, level: &str, rule: &str) -> i32 {
         let wall = self.start.elapsed().as_secs_f64();
+        let noted = NOTED_KNOWN.lock().unwrap().clone();
+        for (id, n) in noted.iter() {
+            if let Some(k) = self.known.entries.iter().find(|e| &e.id == id) {
+                self.known_hits.insert(k.id.clone(), format!("{} (tolerated {} times in this run)", k.what, n));
+            }
+        }
         let mut evaluations = 0u64;
         let mut distinct = 0u64;
         let mut samples: Vec<Value> = Vec::new();
